@@ -1017,7 +1017,7 @@ def wraps_task(
                     new_namespace = suffix
 
                 new_task = get_task_registry().rename(
-                    old_fullname, new_name=task_.name, new_namespace=new_namespace
+                    old_fullname, new_name=task_.name, new_namespace=new_namespace, task=task_
                 )
                 return new_task.fullname
 
@@ -1116,10 +1116,20 @@ class TaskRegistry:
         else:
             raise ValueError("No task field given.")
 
-    def rename(self, old_name: str, new_namespace: str, new_name: str) -> Task:
-        assert old_name in self._tasks
-        task = self._tasks.pop(old_name)
-        self._decrement_hash_count(task)
+    def rename(
+        self, old_name: str, new_namespace: str, new_name: str, task: Optional[Task] = None
+    ) -> Task:
+        """
+        Rename the task registered as `old_name`.
+
+        When `task` is given and it no longer owns `old_name` (e.g. it was displaced by a
+        redefinition of the same name), the task registered there is left alone and only `task`
+        itself is renamed and registered under its new name.
+        """
+        if task is None or self._tasks.get(old_name) is task:
+            assert old_name in self._tasks
+            task = self._tasks.pop(old_name)
+            self._decrement_hash_count(task)
 
         task.namespace = new_namespace
         task.name = new_name
